@@ -389,7 +389,7 @@ pub fn run(tier: Tier) -> i32 {
     let mut ctx = Ctx::new("C19", tier);
     ctx.assume("governor's DefaultClock is real monotonic time and not injectable: cases run in real time; brackets make the envelope check conservative under scheduling noise");
     ctx.assume("not a pure function of the seed: a replay re-runs the saved script several times and reports the hit rate");
-    ctx.run_part(Histories, tier.pick(600, 12_000));
-    ctx.run_part_threads(HintRace, tier.pick(48, 1_500), 8);
+    ctx.run_part(Histories, tier.pick(600, 60_000));
+    ctx.run_part_threads(HintRace, tier.pick(48, 6_000), 8);
     ctx.finish()
 }
